@@ -114,3 +114,26 @@ def offsets(ps):
         out.append(o)
         o += width(p)
     return out, o
+
+
+def inside_query(rng, wj, spherical, feature=None):
+    """a 3-D query aimed at the inside of one (random) area feature / plume"""
+    fs = [f for f in wj.get("features", []) if f.get("coordinates")]
+    if not fs:
+        return query3d(rng, wj, spherical)
+    f = feature or rng.choice(fs)
+    cs = f["coordinates"]
+    cx = sum(c[0] for c in cs) / len(cs)
+    cy = sum(c[1] for c in cs) / len(cs)
+    v = rng.choice(cs)
+    t = rng.uniform(0.0, 0.7)
+    x, y = cx + t * (v[0] - cx), cy + t * (v[1] - cy)
+    lo = f.get("min depth", 0.0)
+    hi = f.get("max depth", 3e5)
+    lo = lo if isinstance(lo, (int, float)) else 0.0
+    hi = hi if isinstance(hi, (int, float)) else 1e5
+    if f["model"] == "plume":
+        hi = min(hi, f["cross section depths"][-1] + 1e5)
+    d = float(round(rng.uniform(lo, max(lo, min(hi, lo + 2e5)))))
+    radius = wj.get("coordinate system", {}).get("radius", 6371000.0)
+    return cart_point(spherical, x, y, d, radius, TOP), d
